@@ -584,6 +584,10 @@ class BitString(base.SimpleAsn1Type):
     def asInteger(self):
         """Get |ASN.1| value as a single integer value.
         """
+        if self._value is noValue:
+            raise error.PyAsn1Error(
+                'Attempted "asInteger" operation on ASN.1 schema object')
+
         return self._value
 
     def asBinary(self):
@@ -1181,6 +1185,10 @@ class ObjectIdentifier(base.SimpleAsn1Type):
         return self.clone(other + self._value)
 
     def asTuple(self):
+        if self._value is noValue:
+            raise error.PyAsn1Error(
+                'Attempted "asTuple" operation on ASN.1 schema object')
+
         return self._value
 
     # Sequence object protocol
